@@ -955,6 +955,28 @@ def expr_design(idx, stmts):
 
 CORPUS = [
     # (name, entity, reserved, source)
+    # assignments through typed views of objects of another vector kind (casts + resize of the right width on both sides)
+    ("corp_view_targets", "E0", None, HDR + """class E0(cohdl.Entity):
+    clk = Port.input(Bit)
+    s3 = Port.input(Signed[3])
+    u3 = Port.input(Unsigned[3])
+    b8 = Port.input(BitVector[8])
+    ob = Port.output(BitVector[8])
+    oc = Port.output(BitVector[8])
+    ou = Port.output(Unsigned[8])
+    os = Port.output(Signed[8])
+    od = Port.output(BitVector[3])
+    def architecture(self):
+        r = Signal[BitVector[8]]()
+        @std.sequential(std.Clock(self.clk))
+        def proc():
+            self.ob.signed <<= self.s3
+            self.oc.unsigned <<= self.u3
+            self.ou.bitvector <<= self.b8
+            self.os.unsigned <<= self.u3
+            r.signed <<= self.s3
+            self.od.signed <<= self.s3
+"""),
     # repeated choices (fixed by dba8bb6: now rejected; before, `case` / `with select` listed a choice twice)
     ("corp_dup_match", "E0", None, HDR + """class E0(cohdl.Entity):
     clk = Port.input(Bit)
